@@ -374,6 +374,50 @@ def closer_parked_after_its_section():
     return out
 
 
+def start_fails_after_construction():
+    """observer.start(): the emitter has built its inotify buffer (three descriptors, a reader thread) when starting its own
+    thread fails ("can't start new thread"): start() raises, and everything built for that watch is released"""
+    from watchdog.observers.api import EventEmitter
+    base = tempfile.mkdtemp(prefix="c12i")
+    out = []
+    real = threading.Thread.start
+    try:
+        f0, t0 = nfds(), lib_threads()
+
+        def start(self):
+            if isinstance(self, EventEmitter):
+                raise RuntimeError("can't start new thread")
+            return real(self)
+        for _ in range(3):
+            o = Observer()
+            o.schedule(FileSystemEventHandler(), base, recursive=True)
+            threading.Thread.start = start
+            try:
+                try:
+                    o.start()
+                    out.append("start() did not raise although the emitter thread could not be started")
+                except RuntimeError:
+                    pass
+            finally:
+                threading.Thread.start = real
+            time.sleep(0.1)
+            leaked = (nfds() - f0, [t for t in lib_threads() if t not in t0])
+            try:
+                o.stop()
+            except Exception:
+                pass
+            if leaked[0] or leaked[1]:
+                out.append(f"start() failed after the watch was constructed and returned with descriptors {leaked[0]:+d}, threads {leaked[1]} still held for that watch")
+                break
+        time.sleep(0.2)
+        if not out and (nfds() != f0 or lib_threads() != t0):
+            out.append(f"3 start() calls that failed after the watch was constructed: descriptors {nfds() - f0:+d}, threads left {lib_threads()}")
+    finally:
+        threading.Thread.start = real
+        shutil.rmtree(base, ignore_errors=True)
+    return out
+
+
 def restart_cycles():
     """stop(); start(); stop() on an emitter and observer.stop(); schedule(); start(); stop(): what a start() after a stop() creates is released by the next stop()"""
     from watchdog.observers.inotify import InotifyEmitter
@@ -410,7 +454,7 @@ def restart_cycles():
 
 
 PARKS = [("acquire", 1), ("release", 1), ("acquire", 2), ("release", 2), ("acquire", 3)]
-SCEN = {"cycles": cycles, "failed-schedules": failed_schedules, "close-before-first-read": close_before_first_read, "root-deleted-then-close": root_deleted_then_close, "two-closers": two_closers, "restart-cycles": restart_cycles, "closer-parked-after-its-section": closer_parked_after_its_section}
+SCEN = {"cycles": cycles, "failed-schedules": failed_schedules, "close-before-first-read": close_before_first_read, "root-deleted-then-close": root_deleted_then_close, "two-closers": two_closers, "restart-cycles": restart_cycles, "closer-parked-after-its-section": closer_parked_after_its_section, "start-fails-after-construction": start_fails_after_construction}
 for p in PARKS:
     SCEN[f"close-vs-reader@{p[0]}{p[1]}"] = (lambda p=p: close_vs_reader(p))
 
